@@ -98,7 +98,7 @@ func followerCaughtUp(c *Cli) bool {
 var c06Frozen = freezeAllBut("follow", "Serve#2", "Serve#4")
 
 func checkC06(job *Job, res *Result) {
-	res.Rule = "FAULT: initial follower state {empty, a true prefix of the leader's log, unrelated data (objects + channel); thorough: the same with logs > 512 KiB so that the checksum search runs} x ALL event sequences of length <= D over {leader write, 300 kB leader write, leader AOFSHRINK to completion, follower clean restart, replication connection kill, follower paused during two leader writes, follower stalled mid-download across a leader write + AOFSHRINK + write}; settle under virtual time; distinct = distinct (initial state, event sequence, final leader dump)"
+	res.Rule = "FAULT: initial follower state {empty, a true prefix of the leader's log, unrelated data (objects + channel), a non-empty log with an empty dataset; thorough: the same with logs > 512 KiB so that the checksum search runs} x ALL event sequences of length <= D over {leader write, 300 kB leader write, leader AOFSHRINK to completion, follower clean restart, replication connection kill, follower paused during two leader writes, follower stalled mid-download across a leader write + AOFSHRINK + write}; settle under virtual time; distinct = distinct (initial state, event sequence, final leader dump)"
 	res.Assumptions = append(res.Assumptions,
 		"both servers run in one process on the in-memory network; time is virtual (1 s reconnect delay and 250 ms broadcasts cost nothing)",
 		"no TTLs in the workload (a follower runs its own expiry sweeper)",
@@ -107,7 +107,7 @@ func checkC06(job *Job, res *Result) {
 	if d, ok := job.Params["depth"].(float64); ok {
 		depth = int(d)
 	}
-	inits := []string{"empty", "prefix", "unrelated", "big-empty"}
+	inits := []string{"empty", "prefix", "unrelated", "emptied", "big-empty"}
 	if job.Tier == "thorough" {
 		inits = append(inits, "big-prefix", "big-unrelated")
 	}
@@ -175,6 +175,16 @@ func checkC06(job *Job, res *Result) {
 					b, _ := os.ReadFile(filepath.Join(ldir, "appendonly.aof"))
 					os.WriteFile(filepath.Join(fdir, "appendonly.aof"), b, 0600)
 					r.write(false) // the leader moves on
+				case "emptied":
+					// a log that is not empty although the dataset is: everything was deleted again
+					f0 := x.Start("F", fdir, 9002, nil)
+					c := x.Dial(f0.Addr)
+					for i := 0; i < 40; i++ {
+						c.Do("SET", "gone", fmt.Sprintf("g%02d", i), "POINT", "5", fmt.Sprint(i))
+					}
+					c.Do("DROP", "gone")
+					c.Close()
+					f0.Stop()
 				case "unrelated":
 					f0 := x.Start("F", fdir, 9002, nil)
 					c := x.Dial(f0.Addr)
@@ -274,6 +284,9 @@ func checkC06(job *Job, res *Result) {
 				if h := fc.Do("HEALTHZ"); h.String() != "+OK" {
 					viol("healthz", "caught_up=true but HEALTHZ replied "+h.String())
 				}
+				if la, fa := asMap(r.lc.Do("SERVER"))["aof_size"], asMap(fc.Do("SERVER"))["aof_size"]; la != fa {
+					viol("aof-size-differs", fmt.Sprintf("follower reports caught_up with aof_size %s, the leader's is %s", fa, la))
+				}
 				ld := fullDump(r.lc)
 				fd := fullDump(fc)
 				if ld != fd {
@@ -311,4 +324,134 @@ func dumpBrief(d string) string {
 		d = d[:i] + fmt.Sprintf("<%d digits>", j-i) + d[j:]
 	}
 	return vclip(d, 900)
+}
+
+// ---- c06switch: two leaders; the follower is re-pointed or promoted
+
+func init() { checks["c06switch"] = checkC06Switch }
+
+func checkC06Switch(job *Job, res *Result) {
+	res.Rule = "FAULT: two leaders A and B and one follower; ALL sequences of length <= D over {write on A, write on B, FOLLOW A, FOLLOW B, FOLLOW no one}; after settling the follower equals the leader it follows (dump and aof_size), and a promoted follower (FOLLOW no one) is never changed by its former leaders; distinct = distinct (sequence, final dumps)"
+	depth := 3
+	if d, ok := job.Params["swdepth"].(float64); ok {
+		depth = int(d)
+	}
+	ev := []string{"wA", "wB", "fA", "fB", "f0"}
+	var seqs [][]int
+	var gen func(cur []int)
+	gen = func(cur []int) {
+		if len(cur) > 0 {
+			seqs = append(seqs, append([]int(nil), cur...))
+		}
+		if len(cur) == depth {
+			return
+		}
+		for e := range ev {
+			gen(append(cur, e))
+		}
+	}
+	gen(nil)
+	var only map[string]any
+	if job.Replay != nil {
+		mustJSON(job.Replay, &only)
+	}
+	for si, seq := range seqs {
+		names := make([]string, len(seq))
+		for i, e := range seq {
+			names[i] = ev[e]
+		}
+		if only != nil {
+			if fmt.Sprint(only["events"]) != fmt.Sprint(names) {
+				continue
+			}
+		} else if si%job.NShards != job.Shard {
+			continue
+		}
+		if res.OverBudget() {
+			res.Cap("time budget hit")
+			return
+		}
+		seq := seq
+		viol := func(sig, detail string) {
+			res.Violate("C06/switch:"+sig, fmt.Sprintf("%s  [events %v]", detail, names), map[string]any{"events": names})
+		}
+		x := runExec(job, c06Frozen, func(x *Exec) {
+			vnet.Window = 65536
+			a := x.Start("A", x.dir+"/A", 9001, nil)
+			b := x.Start("B", x.dir+"/B", 9003, nil)
+			f := x.Start("F", x.dir+"/F", 9002, nil)
+			ca, cb, cf := x.Dial(a.Addr), x.Dial(b.Addr), x.Dial(f.Addr)
+			na, nb := 0, 0
+			ca.Do("SET", "ak", "a0", "POINT", "1", "1")
+			cb.Do("SET", "bk", "b0", "POINT", "2", "2")
+			following := ""
+			promotedDump := ""
+			for _, e := range seq {
+				switch ev[e] {
+				case "wA":
+					na++
+					ca.Do("SET", "ak", fmt.Sprintf("a%d", na), "POINT", "1", fmt.Sprint(na))
+				case "wB":
+					nb++
+					cb.Do("SET", "bk", fmt.Sprintf("b%d", nb), "POINT", "2", fmt.Sprint(nb))
+				case "fA":
+					cf.Do("FOLLOW", "127.0.0.1", "9001")
+					following = "A"
+				case "fB":
+					cf.Do("FOLLOW", "127.0.0.1", "9003")
+					following = "B"
+				case "f0":
+					cf.Do("FOLLOW", "no", "one")
+					if following != "" || promotedDump == "" {
+						vsched.Quiesce()
+						promotedDump = fullDump(cf)
+					}
+					following = ""
+				}
+				vsched.Sleep(int64(30 * stdtime.Millisecond))
+			}
+			if following != "" {
+				ok := false
+				for i := 0; i < 300 && !ok; i++ {
+					vsched.Sleep(int64(100 * stdtime.Millisecond))
+					ok = followerCaughtUp(cf)
+				}
+				if !ok {
+					viol("never-caught-up", "the follower did not report caught_up within 30 virtual seconds")
+					return
+				}
+			}
+			vsched.Sleep(int64(1500 * stdtime.Millisecond)) // anything still in flight from a former leader arrives now
+			vsched.Quiesce()
+			fd := fullDump(cf)
+			switch following {
+			case "A", "B":
+				lc := ca
+				if following == "B" {
+					lc = cb
+				}
+				if ld := fullDump(lc); ld != fd {
+					viol("dataset-differs", fmt.Sprintf("following %s and caught up; leader: %s ; follower: %s", following, vclip(ld, 500), vclip(fd, 500)))
+				}
+				if la, fa := asMap(lc.Do("SERVER"))["aof_size"], asMap(cf.Do("SERVER"))["aof_size"]; la != fa {
+					viol("aof-size-differs", fmt.Sprintf("following %s: follower aof_size %s, leader %s", following, fa, la))
+				}
+			default:
+				if promotedDump != "" && fd != promotedDump {
+					viol("promoted-server-changed-by-former-leader", fmt.Sprintf("after FOLLOW no one the dataset was %s ; later it became %s", vclip(promotedDump, 400), vclip(fd, 400)))
+				}
+			}
+			res.DistinctS(fmt.Sprint(names, len(fd)))
+		})
+		if len(x.Crashes) > 0 {
+			viol("server-crash", x.Crashes[0].Thread+": "+x.Crashes[0].Value)
+		} else if x.Err != "" {
+			viol("hang", x.Err)
+		}
+		res.Evaluations++
+		res.Transitions += len(seq)
+		res.Validated++
+	}
+	res.States += len(seqs)
+	res.Bounds["switch_depth"] = depth
 }
